@@ -1,0 +1,72 @@
+//go:build verif
+
+// Contracts for govc (see /verif/DESIGN.md). Comment-only file.
+
+package core
+
+//@ property C26
+
+// Numbers have three representations: *smi (small int), SuInt64, SuDnum.
+//@ spec isIntV(v Value) bool = typeis(v, "*smi") || typeis(v, "SuInt64")
+//@ spec ivalV(v Value) int = typeis(v, "*smi") ? absval(unbox(v, "*smi")) : unbox(v, "SuInt64").int64
+//@ spec isDnumV(v Value) bool = typeis(v, "SuDnum")
+//@ spec fits64(n int) bool = -9223372036854775808 <= n && n <= 9223372036854775807
+
+// *smi is a pointer into a static table; its integer value is the (unsafe)
+// pointer offset. Abstracted: absval(p) is the value of small int p.
+//@ func SuInt(n) (r)
+//@   assumed
+//@   pure
+//@   panics_if n < -32768 || n > 32767
+//@   ensures r != nil && absval(r) == n
+//@ func (si *smi) toInt() (r)
+//@   assumed
+//@   pure
+//@   ensures r == absval(si) && -32768 <= r && r <= 32767
+
+//@ func IntVal(n) (r)
+//@   ensures! isIntV(r) && ivalV(r) == n
+//@ func Int64Val(n) (r)
+//@   ensures! isIntV(r) && ivalV(r) == n
+//@ func SuIntToInt(x) (n, ok)
+//@   ensures! def: (ok <==> isIntV(x)) && (ok ==> n == ivalV(x))
+
+//@ func (v Value) ToDnum() (d, ok)
+//@   assumed
+//@   pure
+//@ func ToDnum(x) (r)
+//@   assumed
+//@   pure
+
+// integer results are exact when they fit and otherwise fall back to decimal
+// arithmetic instead of wrapping around
+//@ func OpAdd(x, y) (r)
+//@   ensures! exact: isIntV(x) && isIntV(y) && fits64(ivalV(x) + ivalV(y)) ==> isIntV(r) && ivalV(r) == ivalV(x) + ivalV(y)
+//@   ensures! fallback: isIntV(x) && isIntV(y) && !fits64(ivalV(x) + ivalV(y)) ==> isDnumV(r)
+//@ func OpAdd1(x) (r)
+//@   ensures! exact: isIntV(x) && fits64(ivalV(x) + 1) ==> isIntV(r) && ivalV(r) == ivalV(x) + 1
+//@   ensures! fallback: isIntV(x) && !fits64(ivalV(x) + 1) ==> isDnumV(r)
+//@ func OpSub(x, y) (r)
+//@   ensures! exact: isIntV(x) && isIntV(y) && fits64(ivalV(x) - ivalV(y)) ==> isIntV(r) && ivalV(r) == ivalV(x) - ivalV(y)
+//@   ensures! fallback: isIntV(x) && isIntV(y) && !fits64(ivalV(x) - ivalV(y)) ==> isDnumV(r)
+//@ func OpMul(x, y) (r)
+//@   ensures! exact: isIntV(x) && isIntV(y) && fits64(ivalV(x) * ivalV(y)) ==> isIntV(r) && ivalV(r) == ivalV(x) * ivalV(y)
+//@   ensures! fallback: isIntV(x) && isIntV(y) && !fits64(ivalV(x) * ivalV(y)) ==> isDnumV(r)
+//@ func OpUnaryMinus(x) (r)
+//@   ensures! exact: isIntV(x) && fits64(-ivalV(x)) ==> isIntV(r) && ivalV(r) == -ivalV(x)
+//@   ensures! fallback: isIntV(x) && !fits64(-ivalV(x)) ==> isDnumV(r)
+//@ func OpDiv(x, y) (r)
+//@   ensures! exact: isIntV(x) && isIntV(y) && ivalV(y) != 0 && ivalV(x) % ivalV(y) == 0 && fits64(ivalV(x) / ivalV(y)) ==> isIntV(r) && ivalV(r) == ivalV(x) / ivalV(y)
+//@   ensures! otherwise: !(isIntV(x) && isIntV(y) && ivalV(y) != 0 && ivalV(x) % ivalV(y) == 0 && fits64(ivalV(x) / ivalV(y))) ==> isDnumV(r)
+
+// overflow-checked integer helpers (the additions/multiplications are meant
+// to wrap and are then checked: verified with exact wrapping semantics)
+//@ func addInt(x, y) (r, ok)
+//@   arith wrap
+//@   ensures! def: (ok <==> fits64(x + y)) && (ok ==> r == x + y)
+//@ func subInt(x, y) (r, ok)
+//@   arith wrap
+//@   ensures! def: (ok <==> fits64(x - y)) && (ok ==> r == x - y)
+//@ func mulInt(x, y) (r, ok)
+//@   arith wrap
+//@   ensures! def: (ok <==> fits64(x * y)) && (ok ==> r == x * y)
